@@ -125,17 +125,50 @@ def dropLastN (n : Nat) (l : Bytes) : Bytes := l.take (l.length - n)
 
 /-! ### transmit side: `size` setter and `rend` -/
 
+/-- the rending configuration of a live Memoer: `._code`, `._curt`, `._size` (the STORED gram size) -/
 structure TxCfg where
   code : Bytes      -- zeroth gram code, a member of `Zedex`
   curt : Bool
-  size : Nat        -- the value handed to the `size` setter
-deriving Repr
+  size : Nat        -- `._size`: what the last run of the `size` setter stored
+deriving Repr, DecidableEq
 
-/-- the `size` property setter: `max(size, oz + 1)` with `oz` the zeroth overhead (scaled when `curt`) -/
-def effSize (cfg : TxCfg) : Except Exn Nat :=
-  match sizesOf cfg.code with
-  | .ok s => .ok (max cfg.size ((if cfg.curt then 3 * s.oz / 4 else s.oz) + 1))
+/-- smallest gram size the `size` setter stores for `(code, curt)`: zeroth overhead (scaled by 3/4 when `curt`) plus one body byte -/
+def minSize (code : Bytes) (curt : Bool) : Except Exn Nat :=
+  match sizesOf code with
+  | .ok s => .ok ((if curt then 3 * s.oz / 4 else s.oz) + 1)
   | .error e => .error e
+
+/-- the `size` property setter body: `self._size = max(size, oz + 1)` for the CURRENT code and encoding -/
+def setSize (cfg : TxCfg) (size : Nat) : Except Exn TxCfg :=
+  match minSize cfg.code cfg.curt with
+  | .ok m => .ok { cfg with size := max size m }
+  | .error e => .error e
+
+/-- one assignment to a configuration property of a live Memoer -/
+inductive Setter
+  | code (c : Bytes)
+  | curt (b : Bool)
+  | size (n : Nat)
+deriving Repr, DecidableEq
+
+/-- the property setters: `.code` rejects a code outside `Zedex` (MemoerError, nothing changed) and otherwise stores it and
+RE-CLAMPS the size (`self.size = self._size`); `.curt` stores and re-clamps; `.size` clamps the new value -/
+def applySetter (cfg : TxCfg) : Setter → Except Exn TxCfg
+  | .code c => if Gen.zedex.contains c then setSize { cfg with code := c } cfg.size else .error .memoerError
+  | .curt b => setSize { cfg with curt := b } cfg.size
+  | .size n => setSize cfg n
+
+/-- a history of assignments; stops at the first one that raises -/
+def applySetters : TxCfg → List Setter → Except Exn TxCfg
+  | cfg, [] => .ok cfg
+  | cfg, s :: ss =>
+    match applySetter cfg s with
+    | .ok cfg' => applySetters cfg' ss
+    | .error e => .error e
+
+/-- `Memoer(code=…, curt=…, size=…)`: the constructor assigns code, curt (no size stored yet, nothing to clamp), then size -/
+def mkCfg (code : Bytes) (curt : Bool) (size : Nat) : Except Exn TxCfg :=
+  if Gen.zedex.contains code then setSize ⟨code, curt, 0⟩ size else .error .memoerError
 
 /-- `memo[:n]`, `del memo[:n]` repeated while memo is non-empty; `fuel` = remaining length -/
 def chunks (n : Nat) : Nat → Bytes → List Bytes
@@ -216,11 +249,10 @@ def wireOf (cfg : TxCfg) (t : Bytes) : Except Exn Bytes := if cfg.curt then deco
 (`vid if vid is not None else self.vid`, empty = falsy), `mid` what `makeMID()` returned.
 The non-zeroth overhead `ns.oz` is NOT scaled when curt (the tree's own test pins the resulting gram count), so the
 later body size `size - ns.oz` may be ≤ 0: negative gives "Memo length exceeds max" (mms negative), zero gives ZeroDivisionError
-unless the memo fits the zeroth gram. -/
+unless the memo fits the zeroth gram.  `cfg.size - zozOf cfg zs` is the zeroth body size: it is ≥ 1 whenever `cfg` came out of the
+constructor and any history of property assignments (`Legal`, theorem `setters_legal`); for other triples Python would work with a negative
+size and this definition (natural-number subtraction) is not claimed to describe it. -/
 def rendPlanT (cfg : TxCfg) (ml : Nat) (vidt : Bytes) (mid : Bytes) : Except Exn Plan :=
-  match effSize cfg with
-  | .error e => .error e
-  | .ok size =>
   match sizesOf cfg.code with
   | .error e => .error e
   | .ok zs =>
@@ -245,15 +277,15 @@ def rendPlanT (cfg : TxCfg) (ml : Nat) (vidt : Bytes) (mid : Bytes) : Except Exn
   match wireOf cfg vidt with
   | .error e => .error e
   | .ok vidb =>
-  if size < ns.oz then .error .memoerError
-  else if ml > size - zozOf cfg zs ∧ size - ns.oz = 0 then .error .zeroDivisionError
-  else if ml > min Gen.maxMemoSize ((size - ns.oz) * (Gen.maxGramCount - 1) + (size - zozOf cfg zs)) then .error .memoerError
+  if cfg.size < ns.oz then .error .memoerError
+  else if ml > cfg.size - zozOf cfg zs ∧ cfg.size - ns.oz = 0 then .error .zeroDivisionError
+  else if ml > min Gen.maxMemoSize ((cfg.size - ns.oz) * (Gen.maxGramCount - 1) + (cfg.size - zozOf cfg zs)) then .error .memoerError
   else
-  match numField cfg.curt (gramCount ml (size - zozOf cfg zs) (size - ns.oz)) (zszOf cfg zs).nz with
+  match numField cfg.curt (gramCount ml (cfg.size - zozOf cfg zs) (cfg.size - ns.oz)) (zszOf cfg zs).nz with
   | .error e => .error e
   | .ok gcnt =>
     .ok ⟨zcodeb, ncodeb, midb, vidb, vidt, (zszOf cfg zs).nz, (zszOf cfg zs).vz ≠ 0, (zszOf cfg zs).az ≠ 0, ns.vz ≠ 0, ns.az ≠ 0,
-         size - zozOf cfg zs, size - ns.oz, gcnt⟩
+         cfg.size - zozOf cfg zs, cfg.size - ns.oz, gcnt⟩
 
 def rendPlan (cfg : TxCfg) (ml : Nat) (vid : Option Bytes) (mid : Bytes) : Except Exn Plan :=
   rendPlanT cfg ml (vid.getD []) mid
